@@ -3,7 +3,7 @@
 import sys, os, json, shutil, glob
 pid, x, detected = sys.argv[1], sys.argv[2], sys.argv[3]
 needs = " ".join(sys.argv[4:])
-src = f"/tmp/mut/out/{pid}"
+src = os.environ.get("SEED_SRC", "/tmp/mut/out") + f"/{pid}"
 dst = f"/verif/seeded/{pid}{x}"
 os.makedirs(dst, exist_ok=True)
 shutil.copy(f"{src}/{x}.diff", f"{dst}/patch.diff")
